@@ -1,5 +1,173 @@
-(* Props/C28.v -- stub, replaced below *)
-From Coq Require Import List Bool NArith.
-From MV Require Import Base.Bytes Model.WsUtf8 Model.Websocket.
-Theorem C28_stub : True. Proof. exact I. Qed.
-Print Assumptions C28_stub.
+(* Props/C28.v -- WebSocket messages are relayed exactly once with their exact content.
+   Statements only; each is closed by [exact] of a lemma proved in Proofs/Ws*.v.
+   Model: Model/Websocket.v (Fragmentizer, relay_messages, done), Model/WsUtf8.v (decode errors=replace, encode).
+   wsproto is a contract: its events are the input, the events handed to send2 are the output, and
+   wire_payload is what it frames for an event.  FRAGMENT_SIZE (fs) and the addon are universally quantified.
+
+   The property as stated is FALSE of the code in two ways (findings, see findings/C28.jsonl):
+   - text-split-inside-character: C28_text_split_refuted / C28_text_same_length_refuted / C28_text_session_refuted;
+     the guard of the _partial theorems (every fragment valid UTF-8, e.g. valid content cut at code-point
+     boundaries) is exactly the complement: C28_text_fragment_exact_iff.
+   - inject-during-fragmented-message: C28_inject_mid_message_refuted. *)
+From Coq Require Import List Bool Arith NArith.
+From MV Require Import Base.Bytes Model.WsUtf8 Model.Websocket Proofs.WsUtf8 Proofs.WsFragment Proofs.WsRelay Proofs.WsRelay2.
+Import ListNotations.
+
+(* ---------------- Fragmentizer ---------------- *)
+
+(* terminates for every positive FRAGMENT_SIZE *)
+Theorem C28_fragmentizer_total : forall fs lens content, 0 < fs -> exists fr, fragments fs lens content = Some fr.
+Proof. exact fragments_total. Qed.
+Print Assumptions C28_fragmentizer_total.
+
+(* the raw slices concatenate to the content; every fragment but the last is non-final, the last is final *)
+Theorem C28_fragments_partition : forall fs lens content fr, fragments fs lens content = Some fr ->
+  concat (map fst fr) = content /\ wf_frags fr.
+Proof. exact fragments_partition. Qed.
+Print Assumptions C28_fragments_partition.
+
+(* binary: the payloads on the wire concatenate to the content, for all contents and all length lists *)
+Theorem C28_binary_exact : forall fs lens content evs, fragmentize fs lens false content = Some evs ->
+  concat (map wire_payload evs) = content.
+Proof. exact binary_exact. Qed.
+Print Assumptions C28_binary_exact.
+
+(* unmodified (same length): the original fragment lengths are reused, text or binary *)
+Theorem C28_keeps_frame_boundaries : forall fs lens content fr, lens <> [] -> length content = sum_nat lens ->
+  fragments fs lens content = Some fr -> map (fun df => length (fst df)) fr = lens.
+Proof. exact fragments_keep_lens. Qed.
+Print Assumptions C28_keeps_frame_boundaries.
+
+(* modified (another length): FRAGMENT_SIZE chunks, the last one at most FRAGMENT_SIZE *)
+Theorem C28_rechunk_sizes : forall fs lens content fr, length content <> sum_nat lens ->
+  fragments fs lens content = Some fr -> chunk_sizes fs fr.
+Proof. exact fragments_rechunk_sizes. Qed.
+Print Assumptions C28_rechunk_sizes.
+
+(* text: a fragment reaches the wire unchanged IFF it is valid UTF-8 on its own (both directions) *)
+Theorem C28_text_fragment_exact_iff : forall frag : bytes,
+  payload_as_sent true frag = frag <-> utf8_valid frag = true.
+Proof. exact text_fragment_exact_iff. Qed.
+Print Assumptions C28_text_fragment_exact_iff.
+
+(* _partial: valid content and every cut at a code-point boundary (no fragment starts with a continuation byte) *)
+Theorem C28_text_exact_partial : forall fs lens content evs fr, fragments fs lens content = Some fr ->
+  fragmentize fs lens true content = Some evs -> utf8_valid content = true ->
+  Forall (fun df => starts_ok (fst df) = true) fr -> concat (map wire_payload evs) = content.
+Proof. exact text_exact_at_boundaries. Qed.
+Print Assumptions C28_text_exact_partial.
+
+(* converse: if every fragment is sent unchanged then every fragment, and the content, is valid UTF-8 *)
+Theorem C28_text_exact_only_valid : forall fs lens content fr, fragments fs lens content = Some fr ->
+  Forall (fun df => payload_as_sent true (fst df) = fst df) fr ->
+  Forall (fun df => utf8_valid (fst df) = true) fr /\ utf8_valid content = true.
+Proof. exact text_exact_only_valid. Qed.
+Print Assumptions C28_text_exact_only_valid.
+
+(* _refuted: valid text, FRAGMENT_SIZE = 4000, a 3-byte character across offset 4000 (3999 x a, EURO SIGN, b) *)
+Theorem C28_text_split_refuted :
+  utf8_valid split_witness = true /\
+  exists evs, fragmentize 4000 [] true split_witness = Some evs /\ concat (map wire_payload evs) <> split_witness.
+Proof. exact text_split_refuted. Qed.
+Print Assumptions C28_text_split_refuted.
+
+(* _refuted: an edit that keeps the length but moves a character across a reused boundary *)
+Theorem C28_text_same_length_refuted :
+  exists evs, fragmentize 4000 [1; 3] true [xe2; x82; xac; x61] = Some evs
+              /\ concat (map wire_payload evs) <> [xe2; x82; xac; x61].
+Proof. exact text_same_length_refuted. Qed.
+Print Assumptions C28_text_same_length_refuted.
+
+(* ---------------- relay_messages ---------------- *)
+
+(* for every event history and addon: the message frames sent to a side are exactly the fragments of the
+   recorded non-dropped messages of the other side, in recording order: nothing lost, duplicated, reordered or added *)
+Theorem C28_sends_are_recorded : forall fs addon evs s1 cs,
+  run fs addon init evs = (s1, cs) -> is_crashed s1 = false ->
+  forall side, msg_sends side cs = expected_for fs side (messages s1).
+Proof. exact sends_are_recorded. Qed.
+Print Assumptions C28_sends_are_recorded.
+
+(* _partial, end to end: a receiver reassembling the frames gets each relayed message exactly once, in order,
+   with the recorded type and content, provided every recorded message is exact_msg ... *)
+Theorem C28_delivered_exactly_once_partial : forall fs addon evs s1 cs, 0 < fs ->
+  run fs addon init evs = (s1, cs) -> is_crashed s1 = false -> Forall (exact_msg fs) (messages s1) ->
+  forall side, reasm [] (msg_sends side cs)
+               = map (fun m => (m_text m, m_content m)) (filter (relayed side) (messages s1)).
+Proof. exact delivered_exactly_once. Qed.
+Print Assumptions C28_delivered_exactly_once_partial.
+
+(* ... which holds for every binary message, and for text messages with valid content cut at code-point boundaries *)
+Theorem C28_exact_msg_binary : forall fs m, m_text m = false -> exact_msg fs m.
+Proof. exact exact_msg_binary. Qed.
+Print Assumptions C28_exact_msg_binary.
+
+Theorem C28_exact_msg_text_boundaries : forall fs m, utf8_valid (m_content m) = true ->
+  (forall fr, fragments fs (m_lens m) (m_content m) = Some fr -> Forall (fun df => starts_ok (fst df) = true) fr) ->
+  exact_msg fs m.
+Proof. exact exact_msg_text_boundaries. Qed.
+Print Assumptions C28_exact_msg_text_boundaries.
+
+(* _refuted, end to end: client sends valid text of 3999 a + EURO SIGN, an addon appends b:
+   the server does not receive the recorded content *)
+Theorem C28_text_session_refuted :
+  let (s1, cs) := run 4000 (append_addon [x62]) init split_session in
+  is_crashed s1 = false
+  /\ map (fun m => utf8_valid (m_content m)) (messages s1) = [true]
+  /\ reasm [] (msg_sends false cs) <> map (fun m => (m_text m, m_content m)) (filter (relayed false) (messages s1)).
+Proof. exact text_split_session_refuted. Qed.
+Print Assumptions C28_text_session_refuted.
+
+(* _refuted: a message injected while a fragmented message of the same side is in progress is merged with it
+   (client BINARY abc non-final, injected TEXT xyz, client continuation def): recorded as TEXT abcxyz + BINARY def *)
+Theorem C28_inject_mid_message_refuted :
+  let (s1, cs) := run 4000 keep_addon init inject_session in
+  is_crashed s1 = false
+  /\ map (fun m => (m_text m, m_injected m, m_content m)) (messages s1)
+     = [(true, true, [x61; x62; x63; x78; x79; x7a]); (false, false, [x64; x65; x66])].
+Proof. exact inject_mid_message_refuted. Qed.
+Print Assumptions C28_inject_mid_message_refuted.
+
+(* while the connection is open every ping and pong is relayed to the other peer, in order, and nothing else *)
+Theorem C28_pings_relayed : forall fs addon evs s1 cs, Forall no_close evs ->
+  run fs addon init evs = (s1, cs) -> is_crashed s1 = false ->
+  forall side, ctrl_sends side cs = flat_map (pings_of side) evs.
+Proof. exact pings_relayed. Qed.
+Print Assumptions C28_pings_relayed.
+
+(* the recorded close code and reason are those of the first close event, whoever sent it; the layer is then done *)
+Theorem C28_close_recorded : forall fs addon pre fc evs1 code reason st post s1 cs,
+  Forall no_close pre -> Forall (fun e => is_close_ev (fst e) = false) evs1 ->
+  run fs addon init (pre ++ LData fc (evs1 ++ [(WClose code reason, st)]) :: post) = (s1, cs) ->
+  is_crashed s1 = false ->
+  closed s1 = Some (fc, code, reason) /\ finished s1 = true.
+Proof. exact close_frame_recorded. Qed.
+Print Assumptions C28_close_recorded.
+
+Theorem C28_eof_recorded : forall fs addon pre fc post s1 cs,
+  Forall no_close pre -> run fs addon init (pre ++ LClosed fc :: post) = (s1, cs) -> is_crashed s1 = false ->
+  closed s1 = Some (fc, 1006%N, None) /\ finished s1 = true.
+Proof. exact eof_recorded. Qed.
+Print Assumptions C28_eof_recorded.
+
+(* nothing is relayed or recorded after the close *)
+Theorem C28_nothing_after_close : forall fs addon evs s, finished s = true -> run fs addon s evs = (s, []).
+Proof. exact done_noop. Qed.
+Print Assumptions C28_nothing_after_close.
+
+Theorem C28_nonvacuous :
+  (fragmentize 4 [2; 2] false [x61; x62; x63; x64; x65] =
+     Some [WBytes [x61; x62; x63; x64] true false; WBytes [x65] true true]
+   /\ fragmentize 4 [3; 2] true [x61; xc3; xa9; x62; x63] =
+     Some [WText [97%N; 233%N] true false; WText [98%N; 99%N] true true])
+  /\ (let evs := [LData true [(WText [97%N; 233%N] true false, OPEN)];
+                  LData false [(WPing [x70], OPEN)];
+                  LData true [(WText [98%N] true true, OPEN)];
+                  LData false [(WClose 4000%N (Some [98%N]), REMOTE_CLOSING)]] in
+      let (s1, cs) := run 4000 keep_addon init evs in
+      is_crashed s1 = false /\ Forall no_close (firstn 3 evs)
+      /\ msg_sends false cs = [WText [97%N; 233%N] true false; WText [98%N] true true]
+      /\ ctrl_sends true cs = [WPing [x70]]
+      /\ closed s1 = Some (false, 4000%N, Some [98%N])).
+Proof. exact (conj fragmentize_nonvacuous relay_nonvacuous). Qed.
+Print Assumptions C28_nonvacuous.
